@@ -90,27 +90,50 @@ func SRPServerB(gr SRPGroup, v, b *big.Int) *big.Int {
 	return gb.Mod(gb, gr.P)
 }
 
-// SRPClientAnswer computes (g_a, M1) exactly as the client side of the specification:
+// SRPValues holds every intermediate of the client side, as numbers.
+type SRPValues struct {
+	X, V, K, KV, GA, GB, U, T, SA *big.Int
+	KA, M1                        []byte
+}
+
+// SRPClientTrace computes the client side of the specification from x = PH2(password, salt1, salt2):
 //
-//	g_a := pow(g, a) mod p; u := H(g_a | g_b); x := PH2(password, salt1, salt2); v := pow(g, x) mod p
+//	g_a := pow(g, a) mod p; u := H(g_a | g_b); v := pow(g, x) mod p
 //	k_v := (k * v) mod p; t := (g_b - k_v) mod p; s_a := pow(t, a + u * x) mod p; k_a := H(s_a)
 //	M1 := H(H(p) xor H(g) | H(salt1) | H(salt2) | g_a | g_b | k_a)
-func SRPClientAnswer(gr SRPGroup, password, salt1, salt2 []byte, a, gb *big.Int) (ga *big.Int, m1 []byte) {
+//
+// with p, g, g_a, g_b, s_a in their 2048-bit big-endian form wherever they are hashed.
+func SRPClientTrace(gr SRPGroup, x *big.Int, salt1, salt2 []byte, a, gb *big.Int) SRPValues {
 	g := big.NewInt(gr.G)
 	p := gr.P
-	ga = new(big.Int).Exp(g, a, p)
-	u := new(big.Int).SetBytes(srpH(Pad256(ga), Pad256(gb)))
-	x := new(big.Int).SetBytes(SRPPH2(password, salt1, salt2))
-	v := new(big.Int).Exp(g, x, p)
-	kv := new(big.Int).Mul(gr.k(), v)
-	kv.Mod(kv, p)
-	t := new(big.Int).Sub(gb, kv)
-	t.Mod(t, p) // Euclidean: non-negative
-	e := new(big.Int).Mul(u, x)
+	r := SRPValues{X: x, K: gr.k(), GB: gb}
+	r.GA = new(big.Int).Exp(g, a, p)
+	r.U = new(big.Int).SetBytes(srpH(Pad256(r.GA), Pad256(gb)))
+	r.V = new(big.Int).Exp(g, x, p)
+	r.KV = new(big.Int).Mul(r.K, r.V)
+	r.KV.Mod(r.KV, p)
+	r.T = new(big.Int).Sub(gb, r.KV)
+	r.T.Mod(r.T, p) // Euclidean: non-negative
+	e := new(big.Int).Mul(r.U, x)
 	e.Add(e, a)
-	sa := new(big.Int).Exp(t, e, p)
-	ka := srpH(Pad256(sa))
-	return ga, srpM1(gr, salt1, salt2, ga, gb, ka)
+	r.SA = new(big.Int).Exp(r.T, e, p)
+	r.KA = srpH(Pad256(r.SA))
+	r.M1 = srpM1(gr, salt1, salt2, r.GA, gb, r.KA)
+	return r
+}
+
+// SRPClientAnswer computes (g_a, M1) exactly as the client side of the specification.
+func SRPClientAnswer(gr SRPGroup, password, salt1, salt2 []byte, a, gb *big.Int) (ga *big.Int, m1 []byte) {
+	x := new(big.Int).SetBytes(SRPPH2(password, salt1, salt2))
+	r := SRPClientTrace(gr, x, salt1, salt2, a, gb)
+	return r.GA, r.M1
+}
+
+// SRPServerBFromKV is g_b := (k_v + (pow(g, b) mod p)) mod p for a known k_v.
+func SRPServerBFromKV(gr SRPGroup, kv, b *big.Int) *big.Int {
+	gb := new(big.Int).Exp(big.NewInt(gr.G), b, gr.P)
+	gb.Add(gb, kv)
+	return gb.Mod(gb, gr.P)
 }
 
 func srpM1(gr SRPGroup, salt1, salt2 []byte, ga, gb *big.Int, k []byte) []byte {
